@@ -243,3 +243,22 @@ def only_called_from(cg, fn, roots, depth=6):
     callers = {root_fn(a) for (a, bb, k) in cg.callers.get(fn, [])}
     callers.discard(fn)
     return bool(callers) and all(only_called_from(cg, c, roots, depth - 1) for c in callers)
+
+
+def spawned_entries(cg, spawner):
+    """the closures / functions handed to thread::spawn (Builder::spawn) by `spawner` or one of its closures"""
+    out = []
+    for a, es in cg.spawn_edges.items():
+        if root_fn(a) == spawner:
+            out += [c for (c, bb, k) in es]
+    return sorted(set(out))
+
+
+def thread_owners(cg):
+    """body -> set of spawner functions on whose spawned thread the body runs (same-thread reachability from the thread entry)"""
+    out = {}
+    for a, es in cg.spawn_edges.items():
+        for (c, bb, k) in es:
+            for q in cg.reachable([c], spawn=False):
+                out.setdefault(q, set()).add(root_fn(a))
+    return out
